@@ -103,9 +103,9 @@ def main(argv):
         "exhaustive": not acc.caps,
         "caps_hit": acc.caps[:20],
         "distinct_outcomes": len(acc.outcomes),
-        "outcome_histogram": dict(acc.outcomes.most_common(12)),
-        "counters": dict(acc.counters),
-        "observations_not_judged": dict(acc.observations),
+        "outcome_histogram": {str(k): v for k, v in acc.outcomes.most_common(12)},
+        "counters": {str(k): v for k, v in acc.counters.items()},
+        "observations_not_judged": {str(k): v for k, v in acc.observations.items()},
         "shards": len(shards),
         "known_findings_seen": [k["what"] for k, _ in seen_known.values()],
     }
